@@ -5,9 +5,10 @@ CONSTANTS
   Expiry = 2
   GcPeriod = 2
   MaxNow = 5
+  Restarts = 1
   Variant = "none"
 SPECIFICATION ISpec
-INVARIANTS BoundedI NoLeakI QuiescentI ExpiryI RegCleanI
+INVARIANTS BoundedI NoLeakI QuiescentI ExpiryI RegCleanI HeldHasSlotI
 PROPERTY OnceOnlyI
 VIEW View
 SYMMETRY Sym
